@@ -218,6 +218,10 @@ def run(ctx):
     by_id = {x["id"]: x for x in recs}
     for rid, p, clause in ctx.validate(recs):
         ctx.violation(clause, {"kind": "dispatch", "record": by_id[rid], "text": texts[rid]}, key=clause + "|" + by_id[rid]["sec"])
+    # block boundaries: the section laid out so that boundaries of every power-of-two block size (and of multiples of 1000)
+    # fall right behind, just after and inside its lines; > 2^20 characters; through from_file and from_filepath
+    from chartgen import judge_block_alignment
+    judge_block_alignment(ctx, "C14", ['track', 'sync', 'events'])
     ctx.assumptions += [
         "the [Song] section is not dispatched by kinds (unmatched lines there are ignored silently) and is covered by C10",
         "pairwise disjointness of the shipped recognisers over all strings is decided by the language models (Lang.tla)",
